@@ -443,10 +443,37 @@ class ExcAnalysis:
                 len(call.args) == 1:
             cur = call
             guarded = False
+            # next(reversed(X)) / next(iter(X)): what must not be empty
+            inner = call.args[0]
+            subject = txt(inner.args[0]) if isinstance(
+                inner, ast.Call) and call_name(inner) in (
+                    'reversed', 'iter') and inner.args else None
             while parents.get(id(cur)) is not None:
                 par = parents[id(cur)]
                 if isinstance(par, ast.IfExp) and cur is par.body:
                     guarded = True
+                if subject is not None:
+                    # `if X:` around, or a guard clause `if not X: return`
+                    # earlier in an enclosing block
+                    if isinstance(par, ast.If) and txt(par.test) == subject \
+                            and any(cur is s_ for s_ in par.body):
+                        guarded = True
+                    for fld in ('body', 'orelse', 'finalbody'):
+                        block = getattr(par, fld, None)
+                        if isinstance(block, list) and any(
+                                cur is s_ for s_ in block):
+                            for prev in block[:[
+                                    i for i, s_ in enumerate(block)
+                                    if s_ is cur][0]]:
+                                if isinstance(prev, ast.If) and txt(
+                                        prev.test) in (
+                                            f'not {subject}',
+                                            f'len({subject}) == 0') and \
+                                        prev.body and isinstance(
+                                            prev.body[-1],
+                                            (ast.Return, ast.Raise,
+                                             ast.Continue, ast.Break)):
+                                    guarded = True
                 cur = par
             if not guarded:
                 yield 'StopIteration', f'{txt(call)[:50]} without default'
